@@ -4,3 +4,4 @@ import NjectProofs.Static
 import NjectProofs.Machine
 import NjectProofs.EditProofs
 import NjectProofs.ConcProofs
+import NjectProofs.HelperProofs
